@@ -54,7 +54,8 @@ def run_case(mods, recs, simp, obs):
             Node, (r, ), expand, cache)[0]
     for k in simp['sts']:
         key = F.build_nodes(Node, (k['key'], ), expand, cache)[0]
-        substs[key] = F.build_nodes(Node, (k['repl'], ), expand, cache)[0]
+        substs[key] = None if k['repl']['t'] == 'DEL' else F.build_nodes(
+            Node, (k['repl'], ), expand, cache)[0]
     decls = F.build_nodes(Node, simp['decls'], expand, cache)
     s = mu.Simplification(substs, decls)
     bad = []
@@ -116,6 +117,67 @@ def classify(simp):
         'decl' if simp['decls'] else '')
 
 
+def _replay_cfg(job):
+    """TLC-generate one configuration and replay every case (runs in its own
+    process)."""
+    cfg, tmo, tier = job
+    mods = ddsmt_env.mods()
+    rep = common.Report('C11', 'model_checking', tier)
+    out = {'n': 0, 'skipped': 0, 'viol': [], 'nontrivial': set(),
+           'samples': []}
+    ntimeouts = {}
+    for st in common.tlc_generate(rep, 'MC_GenSubst', cfg, timeout=tmo):
+        recs, simp, obs = st['stack'][0], st['simp'], st['obs']
+        simp = {
+            'ids': list(simp['ids'].values()) if isinstance(
+                simp['ids'], dict) else list(simp['ids']),
+            'sts': list(simp['sts'].values()) if isinstance(
+                simp['sts'], dict) else list(simp['sts']),
+            'decls': simp['decls']
+        }
+        out['n'] += 1
+        cls = classify(simp)
+        if ntimeouts.get(cls, 0) >= 20:
+            # this class of simplification has not returned 20 times:
+            # recorded as violations already; do not wait again
+            out['skipped'] += 1
+            continue
+        bad = run_case(mods, recs, simp, obs)
+        if any(k == 'no-termination' for k, _ in bad):
+            ntimeouts[cls] = ntimeouts.get(cls, 0) + 1
+        nest = F.nested_of_recs(recs, expand)
+        if obs['toks'] != obs['base'] and any(
+                isinstance(x, list) for x in nest):
+            out['nontrivial'].add(common.digest([nest, simp]))
+        for kind, msg in bad:
+            out['viol'].append((
+                f'{kind}:{classify(simp)}:forest={json.dumps(nest)}:'
+                f'keys={[k["pos"] for k in simp["ids"]]}/'
+                f'{[k["pos"] for k in simp["sts"]]}',
+                msg + f' [forest {nest}, simplification {classify(simp)}]',
+                {'forest': recs, 'simp': simp, 'obs': obs}))
+        if out['n'] % 20000 == 1 and len(out['samples']) < 2:
+            out['samples'].append({
+                'forest': nest,
+                'simplification': {
+                    'identity_keys': [(k['id'], k['kind'])
+                                      for k in simp['ids']],
+                    'structural_keys': [
+                        (F.nested_of_recs((k['key'], ), expand), k['kind'])
+                        for k in simp['sts']
+                    ],
+                    'declarations': len(simp['decls'])
+                },
+                'specified_result_tokens': [expand(t) for t in obs['toks']],
+                'impl_agrees': not bad
+            })
+    out['nontrivial'] = list(out['nontrivial'])
+    out['states'] = rep.cov['states']
+    out['transitions'] = rep.cov['transitions']
+    out['tlc_runs'] = rep.cov['tlc_runs']
+    return out
+
+
 def main():
     a = common.std_args()
     ddsmt_env.load()
@@ -143,57 +205,25 @@ def main():
         if bad:
             print('VIOLATION property=C11 replay=' + a.replay)
         return 1 if bad else 0
-    n = 0
-    skipped = 0
-    ntimeouts = {}
-    for cfg, tmo in CONFIGS[a.tier]:
-        for st in common.tlc_generate(rep, 'MC_GenSubst', cfg, timeout=tmo):
-            recs, simp, obs = st['stack'][0], st['simp'], st['obs']
-            simp = {
-                'ids': list(simp['ids'].values()) if isinstance(
-                    simp['ids'], dict) else list(simp['ids']),
-                'sts': list(simp['sts'].values()) if isinstance(
-                    simp['sts'], dict) else list(simp['sts']),
-                'decls': simp['decls']
-            }
-            rep.count()
-            n += 1
-            cls = classify(simp)
-            if ntimeouts.get(cls, 0) >= 20:
-                # this class of simplification has not returned 20 times:
-                # recorded as violations already; do not wait again
-                skipped += 1
-                continue
-            bad = run_case(mods, recs, simp, obs)
-            if any(k == 'no-termination' for k, _ in bad):
-                ntimeouts[cls] = ntimeouts.get(cls, 0) + 1
-            nest = F.nested_of_recs(recs, expand)
-            if obs['toks'] != obs['base'] and any(
-                    isinstance(x, list) for x in nest):
-                rep.nontrivial(common.digest([nest, simp]))
-            for kind, msg in bad:
-                rep.violation(
-                    f'{kind}:{classify(simp)}:forest={json.dumps(nest)}:'
-                    f'keys={[k["pos"] for k in simp["ids"]]}/'
-                    f'{[k["pos"] for k in simp["sts"]]}',
-                    msg + f' [forest {nest}, simplification {classify(simp)}]',
-                    {'forest': recs, 'simp': simp, 'obs': obs})
-            if n % 20000 == 1:
-                rep.sample({
-                    'forest': nest,
-                    'simplification': {
-                        'identity_keys': [(k['id'], k['kind'])
-                                          for k in simp['ids']],
-                        'structural_keys': [
-                            (F.nested_of_recs((k['key'], ), expand), k['kind'])
-                            for k in simp['sts']
-                        ],
-                        'declarations': len(simp['decls'])
-                    },
-                    'specified_result_tokens':
-                    [expand(t) for t in obs['toks']],
-                    'impl_agrees': not bad
-                })
+    # one process per configuration: TLC generates, the process replays
+    import multiprocessing
+    jobs = [(cfg, tmo, a.tier) for cfg, tmo in CONFIGS[a.tier]]
+    with multiprocessing.get_context('fork').Pool(len(jobs)) as pool:
+        parts = pool.map(_replay_cfg, jobs)
+    n = skipped = 0
+    for part in parts:
+        n += part['n']
+        skipped += part['skipped']
+        rep.count(part['n'])
+        rep.cov['states'] += part['states']
+        rep.cov['transitions'] += part['transitions']
+        rep.cov['tlc_runs'] += part['tlc_runs']
+        for d in part['nontrivial']:
+            rep.nontrivial(d)
+        for sig, msg, rp in part['viol']:
+            rep.violation(sig, msg, rp)
+        for smp in part['samples']:
+            rep.sample(smp)
     rep.cov['traces_validated_against_impl'] = n - skipped
     rep.cov['skipped_after_repeated_timeout'] = skipped
     rep.cov['exhaustive'] = True
